@@ -189,6 +189,16 @@ func exec(op string) (res string) {
 		return showFor(curCluster.ReplicaMap(simpleClass, simpleOpts(w[1])), w[2:], "[]")
 	case "snts":
 		return showFor(curCluster.ReplicaMap(ntsClass, ntsOpts(w[1])), w[2:], "[]")
+	case "resetpol":
+		return polReset(w)
+	case "pev":
+		return polEvent(w)
+	case "psch":
+		return polSchema(w)
+	case "pfresh":
+		return polFresh()
+	case "prepl", "xprepl", "ppick", "spick":
+		return polQuery(w)
 	case "strategy":
 		cls, err := vh.UnHex(w[1])
 		if err != nil {
@@ -442,6 +452,9 @@ type run struct {
 	r      *vh.Rng
 	lookup map[string]int
 	nClust int
+	// policy scenario
+	nPol          int
+	polUnreadRing int
 }
 
 func classifyMap(ans string) string {
@@ -731,5 +744,11 @@ func main() {
 	} else {
 		ru.exhaustive(1, 60)
 	}
-	ru.out.Close(map[string]interface{}{"clusters": ru.nClust, "lookup_token_classes": ru.lookup})
+	// the replica map as a function of the history of policy events
+	ru.polFixed()
+	for i := 0; i < 500*mult; i++ {
+		ru.polScenario(i%10 == 0)
+	}
+	ru.out.Close(map[string]interface{}{"clusters": ru.nClust, "lookup_token_classes": ru.lookup,
+		"policy_histories": ru.nPol, "ring_recomputations_while_a_mapped_keyspace_is_unreadable": ru.polUnreadRing})
 }
